@@ -128,3 +128,9 @@ Proof.
   intros n steps H. destruct (accept_sound _ _ H) as [ls [s [R [O _]]]].
   rewrite <- O. eapply model_satisfies_spec; eauto.
 Qed.
+
+Theorem fine_accepted_satisfies_spec : forall steps, accept_fine steps = true -> spec_C16 (fine_events steps) = true.
+Proof.
+  intros steps H. destruct (accept_fine_sound _ H) as [ls [s [R [O _]]]].
+  rewrite <- O. eapply model_satisfies_spec; eauto.
+Qed.
